@@ -115,6 +115,27 @@ def decode_listing(rows) -> dict:
 
 # ---------------------------------------------------------------- tokenisers for spec/Trace_Formats.tla (no judgement here)
 
+def tokenise_listing(text: str) -> list:
+    """Listing text -> rows of Formats.tla, one per text row, nothing merged and nothing judged."""
+    import os
+    items = []
+    for raw in text.splitlines():
+        if raw.startswith('File: '):
+            items.append({'k': 'file', 'name': os.path.basename(raw[6:].strip()), 'line': -1, 'addr': -1, 'data': []})
+            continue
+        cols = raw.split('|')
+        if len(cols) < 5 or cols[0].strip() == 'line' or set(raw.strip()) <= set('-+'):
+            continue
+        try:
+            line = int(cols[0]) if cols[0].strip() else -1
+            addr = int(cols[1], 16) if cols[1].strip() else -1
+            data = [int(t, 16) for t in cols[2].split()]
+        except ValueError:
+            line, addr, data = -1, 5, [999]        # a row that cannot be split into numbers: rejected by the specification
+        items.append({'k': 'row', 'name': '', 'line': line, 'addr': addr, 'data': data})
+    return items
+
+
 BAD_ITEM = {'intel_hex': {'n': 0, 'addr': 0, 'typ': 99, 'data': [], 'chk': 0},
             'hex': {'addr': 0, 'cols': []},
             'minhex': {'k': 'data', 'a': 0, 'data': [999]}}
